@@ -130,15 +130,23 @@ def is_num(x):
     return (isinstance(x, (int, float)) and not isinstance(x, bool)) or type(x).__name__ in ("float64", "float32", "int64", "int32")
 
 
+def is_int_object(x):
+    """a number the implementation holds as an integer object: numpy's round / multiply take the integer path for it"""
+    return (isinstance(x, int) and not isinstance(x, bool)) or type(x).__name__ in ("int64", "int32", "int16", "int8", "uint64", "uint32")
+
+
 def enc_num(x):
-    return fl(float(x)) if is_num(x) else "nan"
+    """Run/C05Run.v `num`: F = float object, I = integer object (np.round is the identity on it)"""
+    if not is_num(x):
+        return "(F nan)"
+    return "(%s %s)" % ("I" if is_int_object(x) else "F", fl(float(x)))
 
 
 def enc_vec(v):
     try:
         return ll(list(v), enc_num)
     except TypeError:
-        return "[nan; nan; nan; nan; nan; nan; nan; nan; nan]"
+        return "[F nan; F nan; F nan; F nan; F nan; F nan; F nan; F nan; F nan]"
 
 
 def enc_snap(s):
